@@ -9,13 +9,11 @@
 (***************************************************************************)
 EXTENDS HbSetOps, TLCExt, SequencesExt
 
-CONSTANTS NK, Poss, Tags, Es, OpNames, MaxPa
+CONSTANTS NK, Poss, Tags, Es, OpNames, MaxPa, TRem
 Keys == 0..(NK - 1)
 VARIABLES t, S, hp, chk
 vars == <<t, S, hp, chk>>
 Hashes == [pos : Poss, tag : Tags]
-Init == hp \in [Keys -> Hashes] /\ t = Singleton(Es) /\ S = {} /\ chk = TRUE
-
 Ev(op, k) == [op |-> op, t |-> 1, u |-> 2, k |-> k, id |-> 0, v |-> 0, vid |-> 0, n |-> k, j |-> -1, ks |-> <<>>, r |-> <<>>, y |-> <<>>, pn |-> ""]
 
 \* right-hand operands: tables built by inserting a set of classes in ascending order
@@ -24,6 +22,16 @@ Build(tt, ks) == IF ks = <<>> THEN tt
                  ELSE Build(MapInsert(tt, Head(ks), 0, 0, 0, hp[Head(ks)], LawfulEnv, 0).t, Tail(ks))
 Operand(C) == Build(Singleton(Es), SetToSortSeq(C, <))
 ClsOf(x) == {x.data[i][1] : i \in FullIdx(x)}
+\* start states: the unallocated set and, for every m in TRem, the set built LAWFULLY by inserting all classes and removing
+\* classes 0..m-1 again (tombstone saturation: the next slot-level insertion rehashes in place with live elements)
+RECURSIVE RunLawful(_, _, _)
+RunLawful(tt, es, plan) == IF es = <<>> THEN tt ELSE RunLawful(SetOp(Head(es), tt, tt, plan, LawfulEnv).t, Tail(es), plan)
+Template(plan, m) == RunLawful(Singleton(Es), [i \in 1..(NK + m) |-> IF i <= NK THEN Ev("insert", i - 1) ELSE Ev("remove", i - NK - 1)], plan)
+Init == /\ hp \in [Keys -> Hashes]
+        /\ t \in {Singleton(Es)} \cup {Template(hp, m) : m \in TRem}
+        /\ S = ClsOf(t) /\ chk = TRUE
+\* operands of the assigning operators: every subset of the classes, or a fixed family when the universe is large
+Operands == IF NK <= 4 THEN SUBSET Keys ELSE {{}, {0}, {NK - 1}, {0, 1, NK - 1}, {k \in Keys : k % 2 = 0}, Keys}
 
 Step(e, B) ==
   LET src == Operand(B)
@@ -42,13 +50,14 @@ Step(e, B) ==
 
 Next ==
   \/ \E k \in Keys, op \in OpNames \cap {"insert", "remove", "replace", "get_or_insert", "take"} : Step(Ev(op, k), {})
-  \/ \E op \in OpNames \cap {"xor_assign", "or_assign", "and_assign", "sub_assign"}, B \in SUBSET Keys : Step(Ev(op, -1), B)
+  \/ \E op \in OpNames \cap {"xor_assign", "or_assign", "and_assign", "sub_assign"}, B \in Operands : Step(Ev(op, -1), B)
   \/ "shrink_to_fit" \in OpNames /\ Step(Ev("shrink_to_fit", -1), {})
 Spec == Init /\ [][Next]_vars
 
 (* C04 for HashSet: the hasher panics at its pa-th invocation inside the operation.  The set stays structurally valid with
    exact accounting and holds only classes it held before or was being given; a single-key operation that failed while
-   growing leaves the bucket count unchanged.  (The assigning operators may have taken effect for a prefix of the operand.) *)
+   growing leaves the bucket count unchanged.  (The assigning operators may have taken effect for a prefix of the operand; a panic during an in-place
+   rehash drops the elements that had not been re-hashed yet, so old elements may be gone as well.) *)
 FaultStep(e, B, pa) ==
   LET src == Operand(B)
       c == SetOp(e, t, src, hp, [pa |-> pa, hs |-> <<>>])
@@ -57,13 +66,12 @@ FaultStep(e, B, pa) ==
      /\ t' = c.t /\ S' = C1
      /\ chk' = /\ C1 \subseteq S \cup B \cup (IF e.k >= 0 THEN {e.k} ELSE {})
                /\ (e.op \notin {"xor_assign", "or_assign"} => (c.t.mask = t.mask /\ C1 \subseteq S))
-               /\ (e.op = "or_assign" => S \subseteq C1)
                /\ Cardinality(C1) = c.t.items
      /\ UNCHANGED hp
 FNext ==
   \/ Next
   \/ \E k \in Keys, pa \in 1..MaxPa, op \in OpNames \cap {"insert", "replace", "get_or_insert"} : FaultStep(Ev(op, k), {}, pa)
-  \/ \E op \in OpNames \cap {"xor_assign", "or_assign"}, B \in SUBSET Keys, pa \in 1..MaxPa : FaultStep(Ev(op, -1), B, pa)
+  \/ \E op \in OpNames \cap {"xor_assign", "or_assign"}, B \in Operands, pa \in 1..MaxPa : FaultStep(Ev(op, -1), B, pa)
   \/ \E pa \in 1..MaxPa : "shrink_to_fit" \in OpNames /\ FaultStep(Ev("shrink_to_fit", -1), {}, pa)
 FSpec == Init /\ [][FNext]_vars
 
